@@ -69,6 +69,7 @@ def _encoding_and_enumeration(rep, ex):
     _run(rep, enum.minimal, ex)
     _run(rep, enum.loop, ex)
     _run(rep, enum.shared_defaults, ex)
+    _run(rep, cnf.pool, ex)
 
 
 def C02(rep, prog, tier):
